@@ -5,5 +5,6 @@ CONSTANTS
   Fams = {"pos", "vars", "tabfn", "tabmain", "redir", "sub"}
   LB = 3
   LM = 1
+  Wide = {}
   Stepwise = FALSE
 INVARIANT Emit
